@@ -98,6 +98,13 @@ def gen_history(rnd, nsteps):
                                             {"op": "with_scheme", "v": progs.T("https")}, {"op": "with_fragment", "v": [progs.T("fr")]},
                                             {"op": "with_host", "v": progs.T("other.example")},
                                             {"op": "with_query", "q": {"form": "str", "s": progs.T("k=v"), "pairs": []}}])})
+        elif r < 0.53:
+            # the same modifier with ARGUMENTS that compare equal (and hash alike) but must render differently: 0.0 / -0.0 / 0,
+            # 1 / 1.0, 2**53 / float(2**53) -- whichever is seen first must not decide what the other one yields
+            fam = rnd.choice([[0.0, -0.0, 0], [1, 1.0], [2 ** 53, float(2 ** 53)], [-1, -1.0], [10 ** 16, 1e16]])
+            steps.append({"k": "eqargs", "slot": rnd.randrange(1000), "op": rnd.choice(["with_query", "extend_query", "update_query"]),
+                          "form": rnd.choice(["pairs", "mapping", "kwargs", "multidict"]), "vals": [progs.tv_of(v) for v in fam],
+                          "order": rnd.random() < 0.5})
         elif r < 0.7:
             steps.append({"k": "read", "slot": rnd.randrange(1000), "fields": rnd.sample(READ_FIELDS, rnd.choice((1, 2, 4, 8)))})
         elif r < 0.75:
@@ -221,6 +228,16 @@ def run_history(yarl, steps, mode, run_id, rnd):
                         for w in order:
                             res, u = outcome_of(lambda: U._apply(w, st["st"], None))
                             facts.append({"k": "call:" + J([st["st"], val5(w), None]), "v": J(canon_result(res, yarl))})
+            elif k == "eqargs":
+                recv = pool[slot(st["slot"])]
+                stps = [{"op": st["op"], "q": {"form": st["form"], "s": [], "pairs": [[progs.T("k"), v]]}} for v in st["vals"]]
+                if not st["order"]:
+                    stps = stps[::-1]
+                for order in (stps, stps[::-1]):       # both orders, each from empty caches
+                    clear_all_lru(yarl)
+                    for stp in order:
+                        res, u = outcome_of(lambda: U._apply(recv, stp, None))
+                        facts.append({"k": "call:" + J([stp, val5(recv), None]), "v": J(canon_result(res, yarl))})
             elif k == "read":
                 j = slot(st["slot"])
                 pre(lambda: obs(pool[j], st["fields"]))
